@@ -90,6 +90,7 @@ func (c *Check) holdDownSemantics(rule string) {
 func checkC12(c *Check) {
 	p := c.P
 	c.rendezvousChannels("C12.2 error-seen-before-next-transition", "errorCh")
+	c.fsmContracts("C12.2 fsm-effects")
 	c.dampPeerRule("C12.1 damp-predicate")
 	he := p.Fn("peer.handleError")
 	if he == nil {
